@@ -126,8 +126,9 @@ Definition run_rule (same : ident -> ident -> bool) (d : db) (r : rule) : outcom
       else CompileError
   end.
 
-(* ---- the hypotheses of MacroScopes.ren_sound / ren_sound_real for every expression of the rule, the mapping being the
-   union of the passes and the rule-level identifiers all the binders of the rule *)
+(* ---- the hypothesis of MacroScopes.ren_sound_real for every expression of the rule, the mapping being the union of the
+   passes and the rule-level identifiers all the binders of the rule; second component: guards_ok (history: the extra
+   hypothesis the code needed before fix e64116b; the tie counts the programs that exercise the fix) *)
 Definition item_sxs (it : item) : list sx :=
   match it with
   | IClause _ args => flat_map (fun a => match a with CExp e => [e] | CBind _ => [] end) args
@@ -153,5 +154,5 @@ Definition run_case (passes : list mapping) (r : rule) (ds : list db) :=
   (hyp_report passes r,
    map (fun d => (run_rule same_id d r,
                   run_rule same_nm d (ren_rule real_walk passes r),
-                  run_rule same_nm d (ren_rule rust_walk passes r),
+                  run_rule same_nm d (ren_rule walk_before_fix passes r),
                   run_rule same_nm d (ren_rule seed_walk passes r))) ds).
